@@ -59,6 +59,7 @@ def replay_witnesses(ctx, driver_sources=("gen_driver.c", "ops_gen_core.c", "ref
     for f in ctx.findings:
         w = f.get("witness", {})
         if f.get("status") != "known" or "module" not in w or "op" not in w: continue
+        if f.get("property") and f["property"] != ctx.prop: continue  # witness is replayed by the owning property's check (its driver)
         names = w.get("types") or re.findall(r"(\w+)\s*::=", w["module"].split("BEGIN", 1)[1])
         b = bundle.Bundle("w" + f["id"], w["module"], names, driver_sources=driver_sources, **({"opts": tuple(w["opts"])} if w.get("opts") else {}))
         try:
